@@ -6,6 +6,7 @@ import SkaModel.Impl.SkaDict
 import SkaModel.Spec.Iupac
 import SkaModel.Spec.Windows
 import SkaModel.Spec.Dict
+import SkaModel.DriverHist
 
 namespace SkaModel.Driver
 
@@ -133,6 +134,9 @@ def runCase (c : Case) : String × String :=
       | .panicked => "panic:palindrome"
     let sd := Spec.specDict (c.nat "k") (c.flag "rc") recs
     (m, if sd.isEmpty then "novalid" else showDict sd)
+  | "hist" =>
+    (histModel (c.nat "w") (c.nat "k") (c.flag "rc") (c.get "start") (c.get "ops") (c.get "obs"),
+     histSpec (c.nat "k") (c.flag "rc") (c.get "start") (c.get "ops") (c.get "obs"))
   | op => (s!"unknown-op:{op}", "-")
 
 partial def loop (hin hout : IO.FS.Stream) : IO Unit := do
